@@ -37,6 +37,7 @@ import (
 	"net"
 	"os"
 	"strings"
+	"syscall"
 )
 
 const (
@@ -181,7 +182,12 @@ func ElideError(err error) string {
 	case *net.UnknownNetworkError:
 		return "unknown network " + elidedAddr
 	case *net.OpError:
-		return t.Op + ": " + t.Err.Error()
+		// The inner error is frequently another net.Error (DNSError,
+		// AddrError, a nested OpError) that carries addresses of its own.
+		return t.Op + ": " + ElideError(t.Err)
+	case syscall.Errno:
+		// Plain error numbers carry no address information.
+		return t.Error()
 	default:
 		// For unknown error types, do the conservative thing and only log the
 		// type of the error instead of assuming that the string representation
